@@ -90,17 +90,40 @@ Fixpoint parse_ops (l : list string) : option (list op) :=
               end
   end.
 
-Definition parse_cfg (f : list string) : option (cfg * list string) :=
+(* DNS token: z = zero value, m<8 hex> = IPv4-mapped, v6 = another IPv6 address, <8 hex> = plain IPv4 *)
+Definition parse_dns (s : string) : option dnsval :=
+  if String.eqb s "z" then Some DnsZero
+  else if String.eqb s "v6" then Some DnsV6
+  else match s with
+       | String "m"%char r => option_map DnsMapped (N_of_hex r)
+       | _ => option_map DnsV4 (N_of_hex s)
+       end.
+
+Definition parse_raw (f : list string) : option (rawcfg * list string) :=
   match f with
   | md :: hip :: hmac :: rip :: rmac :: home :: hbits :: nf :: nbits :: dns :: rest =>
       match N_of_dec md, N_of_hex hip, N_of_hex hmac, N_of_hex rip, N_of_hex rmac,
-            N_of_hex home, N_of_dec hbits, N_of_hex nf, N_of_dec nbits, N_of_hex dns with
+            N_of_hex home, N_of_dec hbits, N_of_hex nf, N_of_dec nbits, parse_dns dns with
       | Some md, Some hip, Some hmac, Some rip, Some rmac, Some home, Some hbits, Some nf, Some nbits, Some dns =>
-          Some (fresh_cfg md hip hmac rip rmac home hbits nf nbits dns, rest)
+          Some (mkRaw md hip hmac rip rmac home hbits nf nbits dns, rest)
       | _, _, _, _, _, _, _, _, _, _ => None
       end
   | _ => None
   end.
+
+(* the configuration in force, when (Config).New accepts the raw one *)
+Definition parse_cfg (f : list string) : option (cfg * list string) :=
+  match parse_raw f with
+  | Some (r, rest) => match new_cfg r with Some c => Some (c, rest) | None => None end
+  | None => None
+  end.
+(* well-formed tokens of a configuration that New rejects *)
+Definition cfg_rejected (f : list string) : bool :=
+  match parse_raw f with
+  | Some (r, _) => match new_cfg r with Some _ => false | None => true end
+  | None => false
+  end.
+Definition skip_cfg (f : list string) : list string := skipn 10 f.
 
 (* ---------------------------------------------------------------- *)
 (* printing *)
